@@ -239,3 +239,16 @@ def empty():
     if z3 is not None and _SYMBOLIC[0]:
         return z3.Empty(_isort())
     return ()
+
+
+# ---------------------------------------------------------------- defined predicates (unfolded on demand)
+DEFS = {}
+
+
+def define(name, argsorts, body):
+    """declare a predicate P(args) whose meaning is `body(*args)` (a clause list, may contain All).
+    The solver layer adds  P(t) ==> body(t)  for every application P(t) that occurs in an obligation
+    (definition unfolding, one direction, one level) -- never an assumption about the code."""
+    f = z3.Function(name, *(list(argsorts) + [z3.BoolSort()]))
+    DEFS[name] = body
+    return f
